@@ -163,7 +163,22 @@ fn text_function_for<'u>(u: &'u ctext::Unit, qualified: &str, index_in_group: us
         }
     }
     let want = format!("{}_{}", qualified, index_in_group);
-    u.funcs.iter().filter(runnable).find(|f| f.name == want)
+    if let Some(f) = u.funcs.iter().filter(runnable).find(|f| f.name == want) {
+        return Some(f);
+    }
+    // any other numbering: the members of the group in ascending suffix order (which numbers are handed out is a
+    // matter of naming - C15 - not of meaning)
+    let mut members: Vec<(u64, &ctext::FuncD)> = u
+        .funcs
+        .iter()
+        .filter(runnable)
+        .filter_map(|f| {
+            let rest = f.name.strip_prefix(qualified)?.strip_prefix('_')?;
+            rest.parse::<u64>().ok().map(|n| (n, f))
+        })
+        .collect();
+    members.sort_by_key(|m| m.0);
+    if members.len() == group_size { members.get(index_in_group).map(|m| m.1) } else { None }
 }
 
 pub struct ExecOutcome {
@@ -211,7 +226,9 @@ pub fn check_exec_named(source: &str, tgt: Tgt, arg_seed: u64, vectors: usize, e
     let mut compared = 0usize;
     let reg = &module.function_registry;
     // group IR functions by qualified name
+    // (id, source-level qualified name, emitted namespace prefix, leaf name)
     let mut funcs: Vec<(ir::FunctionId, String)> = Vec::new();
+    let mut emitted_prefix: Vec<(String, String)> = Vec::new();
     for id in reg.iter() {
         if reg.get_intrinsic_data(id).is_some() {
             continue;
@@ -222,19 +239,30 @@ pub fn check_exec_named(source: &str, tgt: Tgt, arg_seed: u64, vectors: usize, e
         }
         let nd = reg.get_function_name_definition(id);
         let mut q = nd.name.node.clone();
+        let mut prefix = String::new();
         let mut ns = nd.namespace;
         while let Some(n) = ns {
-            q = format!("{}::{}", module.namespace_registry.get_namespace_name(n), q);
+            let ns_name = module.namespace_registry.get_namespace_name(n);
+            q = format!("{}::{}", ns_name, q);
+            prefix = format!("{}::{}", out_name(ns_name), prefix);
             ns = module.namespace_registry.get_namespace_parent(n);
         }
         funcs.push((id, q));
+        emitted_prefix.push((prefix, nd.name.node.clone()));
     }
     for (pos, (id, q)) in funcs.iter().enumerate() {
         let group: Vec<usize> = funcs.iter().enumerate().filter(|(_, (_, n))| n == q).map(|(i, _)| i).collect();
         let index_in_group = group.iter().position(|i| *i == pos).unwrap();
         let Some(imp) = reg.get_function_implementation(*id).clone() else { continue };
-        let by_group_index = emitted.get(&format!("{}#{}", q, index_in_group)).and_then(|n| unit.funcs.iter().filter(|f| f.has_body && !f.params.iter().any(|p| p.ty == ctext::TyE::TrueType)).find(|f| &f.name == n));
-        let Some(tf) = by_group_index.or_else(|| text_function_for(&unit, &out_name(q), index_in_group, group.len())).or_else(|| text_function_for(&unit, q, index_in_group, group.len())) else {
+        // the name in the emitted text: namespaces and the function may have been renamed by the exporter (C15 passes
+        // the correspondence it observed)
+        let (prefix, leaf) = &emitted_prefix[pos];
+        let by_group_index = emitted
+            .get(&format!("{}#{}", leaf, index_in_group))
+            .map(|n| format!("{}{}", prefix, n))
+            .and_then(|n| unit.funcs.iter().filter(|f| f.has_body && !f.params.iter().any(|p| p.ty == ctext::TyE::TrueType)).find(|f| f.name == n));
+        let q_out = format!("{}{}", prefix, out_name(leaf));
+        let Some(tf) = by_group_index.or_else(|| text_function_for(&unit, &q_out, index_in_group, group.len())).or_else(|| text_function_for(&unit, q, index_in_group, group.len())) else {
             // functions nobody calls may be dropped by a backend only if they are unreachable; in
             // no-pipeline mode everything is emitted, so a missing function is reported
             labels.push("text_function_missing".into());
